@@ -125,19 +125,25 @@ def rule_a(ctx, sa):
 
 
 def branch_body(fnode, attr, lit):
-    """Body of the top-level if/elif arm for self.<attr> == lit."""
+    """Statements executed for self.<attr> == lit: the arm taken in every top-level if/elif chain over that attribute, in order
+    (one chain in the original code; a sequence of independent `if self.<attr> in [...]` statements is the same dispatch)."""
+    out, any_chain = [], False
     for st in fnode.body:
         if isinstance(st, ast.If) and test_literals(st.test, attr) is not None:
+            any_chain = True
             cur = st
             while True:
                 l = test_literals(cur.test, attr)
                 if l is not None and lit in l:
-                    return cur.body
+                    out += cur.body
+                    break
                 if len(cur.orelse) == 1 and isinstance(cur.orelse[0], ast.If):
                     cur = cur.orelse[0]
                     continue
-                return None
-    return None
+                if l is not None and cur.orelse and not (len(cur.orelse) == 1 and isinstance(cur.orelse[0], ast.If)):
+                    pass
+                break
+    return out if out else None
 
 
 def self_calls(stmts):
@@ -295,6 +301,10 @@ def rule_c(ctx, sa, fa, acc_f, ls):
         unpack = [st for st in lb if isinstance(st, ast.Assign) and isinstance(st.value, ast.Call) and norm(st.value.func) == "self.eliminate_flux"]
         ok_unpack = len(unpack) == 1 and isinstance(unpack[0].targets[0], ast.Tuple) and len(unpack[0].targets[0].elts) == 3 \
             and norm(unpack[0].targets[0].elts[2]) == "self.matrix_flux_inv"
+        if not unpack:
+            ctx.ob(R, ls.qname, f"formulation {lit!r}: J^-1 used for back-substitution is the third result of this branch's eliminate_flux", False,
+                   "unpacking of self.eliminate_flux(...) not found in this branch", ls.node)
+            continue
         ctx.ob(R, ls.qname, f"formulation {lit!r}: J^-1 used for back-substitution is the third result of this branch's eliminate_flux", ok_order and ok_unpack,
                f"calls {calls}", ls.node)
         args_e = [norm(a) for a in unpack[0].value.args] if unpack else []
